@@ -165,6 +165,11 @@ func c01Triggers(a *analysed) map[string]bool {
 			cols++
 			if strings.ToLower(f.Name) == "id" {
 				hasID = true
+				if f.T.K == "ref" {
+					if t := decl[f.T.Q]; t != nil && t.PkgPath != a.Env.PkgPath {
+						out["id-type-of-another-package"] = true
+					}
+				}
 			}
 			if f.T.K == "ref" {
 				if t := decl[f.T.Q]; t != nil {
@@ -208,6 +213,7 @@ func c01Signature(a *analysed, tg, msg string) string {
 		for _, c := range []string{
 			try(strings.Contains(first, "invalid receiver type") && strings.Contains(first, "interface type"), "union-typed-column"),
 			try(strings.Contains(first, "without instantiation"), "generic-struct-column"),
+			try(strings.Contains(first, "expected '(', found '.'"), "id-type-of-another-package"),
 			try(strings.Contains(first, "expected operand, found ','"), "table-with-only-an-id"),
 			try(strings.Contains(first, "undefined: NewDateFrom") || strings.Contains(first, "s.Time undefined"), "local-date-typed-column"),
 			try(strings.Contains(first, "declared and not used: item"), "table-without-column"),
